@@ -14,3 +14,23 @@ func BoundsBad(min, max model3d.Coord3D) (model3d.Coord3D, model3d.Coord3D) {
 func BoundsGood(min, max model3d.Coord3D) (model3d.Coord3D, model3d.Coord3D) {
 	return min.Min(max), max.Max(min)
 }
+
+type vec struct{ X, Y float64 }
+
+func (v vec) Normalize() vec      { return v }
+func (v vec) Scale(f float64) vec { return vec{v.X * f, v.Y * f} }
+func (v vec) Norm() float64       { return v.X }
+
+// clean:CANON
+func CanonFirst(axis vec, h float64) (vec, vec) {
+	n := axis.Norm()
+	axis = axis.Normalize()
+	return axis.Scale(h), axis.Scale(n)
+}
+
+// want:CANON the tip is built from the raw axis.
+func CanonLate(axis vec, h float64) (vec, vec) {
+	tip := axis.Scale(h)
+	axis = axis.Normalize()
+	return tip, axis
+}
